@@ -283,3 +283,34 @@ theorem C11.reserved_option_is_local :
     (compile Cfg.fixed id reservingDesign G.init).1 = .ok [[10, 5, 1], [10, 6, 0]] ∧
     (compile Cfg.fixed id plainDesign (compile Cfg.fixed id reservingDesign G.init).2).1 = .ok [[10, 5, 0]] := by
   decide
+
+/-! ## `id()`-keyed cache: key liveness is part of the state -/
+
+/-- cache transparency at the level of ADDRESSES: in a heap whose cache entries keep their key objects alive, a
+    lookup at the address of a live object returns the definition of that object (whatever was cached before, whatever
+    was allocated and freed before), and the heap stays well-formed -/
+theorem C11.cache_transparent_live (h : Heap) (a f : Nat) (ok : h.Ok) (hl : (a, f) ∈ h.live) :
+    ∃ h1, h.lookup a = some (defOf f, h1) ∧ h1.Ok :=
+  Heap.lookup_live ok hl
+
+/-- the invariant survives every allocation, every lookup and every attempt to free an object - as long as the cache
+    entry holds a reference to its key object (`keep = true`, i.e. `_known_definitions[id(c)] = [result, c]`) -/
+theorem C11.cache_key_kept_alive (h : Heap) (a f : Nat) (ok : h.Ok) :
+    (h.free true a).Ok ∧ (∀ h1, h.alloc a f = some h1 → h1.Ok) :=
+  ⟨Heap.ok_free a ok, fun _ e => Heap.ok_alloc ok e⟩
+
+example : Heap.empty.Ok := Heap.ok_empty
+
+/-- WITHOUT that reference (`keep = false`, the entry stores something else than the key object) the address of a
+    freed key is handed out again and the stale entry answers for the new object: object 10 cached at address 1,
+    freed, object 20 allocated at address 1 -> the lookup returns the definition of 10 -/
+theorem C11.cache_stale_when_key_not_kept :
+    (do let h1 ← Heap.empty.alloc 1 10
+        let (_, h2) ← h1.lookup 1
+        let h3 ← (h2.free false 1).alloc 1 20
+        let (d, _) ← h3.lookup 1
+        pure d) = some (defOf 10) ∧ defOf 10 ≠ defOf 20 ∧
+    (do let h1 ← Heap.empty.alloc 1 10
+        let (_, h2) ← h1.lookup 1
+        (h2.free true 1).alloc 1 20) = none := by
+  decide
